@@ -85,8 +85,11 @@ def handler : Handler := fun op j =>
                        now := if (getBool? j "as_source").getD true then some now else none,
                        reroute := (getBool? j "reroute").getD true }
     let r := sendBundle cfg cfg.now mtu b
-    some (jobj [("escaped", Json.bool r.escaped), ("nsched", jnat r.scheduled.length),
-                ("outs", jarr ((clOutputs cfg mtu b).map jhex))])
+    let failIdx := (natList? j "fail").getD []
+    let fr := sendFailing cfg (fun i => failIdx.contains i) mtu b
+    some (jobj [("escaped", Json.bool fr.escaped), ("nsched", jnat r.scheduled.length),
+                ("idle_escapes", jarr (fr.idleEscapes.map jnat)),
+                ("outs", jarr (fr.handed.map jhex))])
   | "frag.reasm" => do
     let node ← eid? (← getObj? j "node")
     let evs ← (← getArr? j "events").toList.mapM ev?
